@@ -1114,5 +1114,41 @@ end BytesRun
 
 end JsonWitness
 
+/-! ### the lock as a file name: two processes find `.ergo/lock` missing, both create it, one gets in -/
+section LockRun
+open LockFile
+
+def l0 : LSys := LSys.init none 7 2
+def l1 := setPh l0 0 .missing
+def l2 := setPh l1 1 .missing
+def l3 := setPh l2 0 .creating
+def l4 := setPh l3 1 .creating
+def l5 := setPh { l4 with name := some 7, fresh := 8 } 0 .ensured        -- 0 creates the file: inode 7
+def l6 := setPh l5 1 .ensured                                             -- 1's O_CREAT finds it: same inode
+def l7 := setPh l6 0 (.opened 7)
+def l8 := setPh l7 1 (.opened 7)
+def l9 := setPh { l8 with holder := setHolder l8.holder 7 (some 0) } 0 (.locked 7)
+def l10 := setPh l9 1 (.done false)                                       -- lock busy
+
+theorem lreach : LReachable l0 l10 :=
+  .tail (.tail (.tail (.tail (.tail (.tail (.tail (.tail (.tail (.tail (.refl _)
+    (.open1Miss l0 0 (by decide) rfl)) (.open1Miss l1 1 (by decide) rfl)) (.statMiss l2 0 (by decide) rfl)) (.statMiss l3 1 (by decide) rfl))
+    (.create l4 0 (by decide))) (.create l5 1 (by decide))) (.open2Ok l6 0 7 (by decide) rfl)) (.open2Ok l7 1 7 (by decide) rfl))
+    (.flockOk l8 0 7 (by decide) rfl)) (.flockBusy l9 1 7 0 (by decide) (by simp [l9, setPh, setHolder]))
+
+example : l10.inside 0 := ⟨7, by decide⟩
+/-- C02 (lock file): whoever else is inside in that state is process 0 -/
+example (q : Nat) (hq : l10.inside q) : 0 = q :=
+  C02_one_process_inside_whatever_the_lock_file none 7 2 l10 lreach ⟨7, by decide⟩ hq
+example : l10.name = some 7 := by decide
+/-- the programs the two processes ran are accepted by the automaton the traces are checked against -/
+example : acquireOK [.openRO false, .stat false, .creat, .openRO true, .flockEx true, .flockUn] = true := by decide
+example : acquireOK [.openRO false, .stat false, .creat, .openRO true, .flockEx false] = true := by decide
+example : acquireOK [.openRO true, .flockEx true, .flockUn] = true := by decide
+example : acquireOK [.openRO true, .flockEx true, .bad, .flockUn] = false := by decide
+example : acquireOK [.openRO false, .creat, .openRO true, .flockEx true, .flockUn] = false := by decide
+
+end LockRun
+
 end Witness
 end Ergo
